@@ -36,10 +36,101 @@ type ApiDuty struct {
 // Input is a history (flattened: spe, runs, trace_log, tags) plus, optionally, a beacon node answer
 // that is merged by the real MergeDuties; run i with FromApi[i] is given the merged duty object of
 // slot Runs[i].Duty.Slot (the other fields of Runs[i].Duty are not used then).
+//
+// Concurrency is the process concurrency the attester service is configured with (0: 1; main.go
+// passes util.ProcessConcurrency, the number of cores by default).  SignLat[i], when not empty, gives
+// the latency of the signer per account for call i as (validator, latency) pairs: a signing request is
+// answered after the largest latency of the accounts it names, Timing.Sign for an account without an
+// entry (attenv/c04_conc.go).  Generated entries are never above Timing.Sign, and where calls
+// overlap one account that is certain to be asked for has no entry, so that a call that asks once
+// for all its accounts waits exactly Timing.Sign.
 type Input struct {
 	History
-	Api     []ApiDuty `json:"api,omitempty"`
-	FromApi []bool    `json:"from_api,omitempty"`
+	Api         []ApiDuty     `json:"api,omitempty"`
+	FromApi     []bool        `json:"from_api,omitempty"`
+	Concurrency int64         `json:"concurrency,omitempty"`
+	SignLat     [][][2]uint64 `json:"sign_lat,omitempty"`
+}
+
+func (in Input) extra() Extra { return Extra{Concurrency: in.Concurrency, SignLat: in.SignLat} }
+
+// dutyVals: the validators of call i's duty, read off the input
+func dutyVals(in Input, i int) []uint64 {
+	if !in.fromApi(i) {
+		return in.Runs[i].Duty.Vals
+	}
+	var vals []uint64
+	for _, a := range in.Api {
+		if a.Slot == in.Runs[i].Duty.Slot {
+			vals = append(vals, a.Val)
+		}
+	}
+	return vals
+}
+
+// vary chooses the process concurrency of the service (above 1 in two thirds of the cases, always
+// when force) and, in half of the cases (always when force), per-account latencies of the signer for
+// every call that is certain to ask for an account that only it can ask for (a validator of its duty
+// alone, with an account): that account keeps Timing.Sign, the others get distinct shorter
+// latencies.  stretch: the calls run one after another with long gaps, so the signer's latency
+// may be made longer (more distinct latencies fit below it).
+func vary(r *Rand, in *Input, force, stretch bool) []string {
+	var tags []string
+	in.Concurrency = []int64{1, 1, 2, 2, 3, 4, 8, 16}[r.Intn(8)]
+	if force || r.Chance(1, 9) {
+		in.Concurrency = []int64{2, 2, 3, 4, 5, 8, 16, 64}[r.Intn(8)]
+	}
+	if in.Concurrency > 1 {
+		tags = append(tags, "concurrency-above-1")
+	}
+	if !force && !r.Bool() {
+		return tags
+	}
+	lat := make([][][2]uint64, len(in.Runs))
+	some := false
+	for i := range in.Runs {
+		run := &in.Runs[i]
+		vals := dutyVals(*in, i)
+		var certain []uint64
+		for _, v := range vals {
+			ok := containsU(run.Script.Accounts, v)
+			for j := range in.Runs {
+				ok = ok && (j == i || !containsU(dutyVals(*in, j), v))
+			}
+			if ok && !containsU(certain, v) {
+				certain = append(certain, v)
+			}
+		}
+		if len(certain) == 0 {
+			continue
+		}
+		if stretch {
+			run.Timing.Sign = uint64(K * r.Range(8, 40))
+		}
+		steps := int(run.Timing.Sign/K) - 1 // latencies K, 2K, ..., steps*K: all below Timing.Sign
+		if steps < 1 {
+			continue
+		}
+		anchor := certain[r.Intn(len(certain))]
+		perm := r.Perm(steps)
+		k := 0
+		for _, v := range sorted(vals) {
+			if v == anchor || !containsU(run.Script.Accounts, v) {
+				continue
+			}
+			lat[i] = append(lat[i], [2]uint64{v, uint64(K * (1 + perm[k%steps]))})
+			k++
+		}
+		some = some || len(lat[i]) > 0
+	}
+	if some {
+		in.SignLat = lat
+		tags = append(tags, "sign-latency-per-account")
+		if in.Concurrency > 1 {
+			tags = append(tags, "split-sign")
+		}
+	}
+	return tags
 }
 
 func (in Input) fromApi(i int) bool { return i < len(in.FromApi) && in.FromApi[i] }
@@ -59,12 +150,12 @@ func (in Input) usesApi() bool {
 func runInput(t *testing.T, in Input) (Observed, []Duty, History) {
 	if !in.usesApi() {
 		// the same runner and mocks (attenv/c04_overlap.go) as on the merged path
-		return RunHistoryWithDuties(t, in.History, nil), nil, in.History
+		return RunHistoryC04(t, in.History, nil, in.extra()), nil, in.History
 	}
 	var objs []*attester.Duty
 	var merged []Duty
 	mergeProblem := ""
-	obs := RunHistoryWithDuties(t, in.History, func(ctx context.Context) ([]*attester.Duty, []bool) {
+	obs := RunHistoryC04(t, in.History, func(ctx context.Context) ([]*attester.Duty, []bool) {
 		rows := make([]*apiv1.AttesterDuty, len(in.Api))
 		for i, a := range in.Api {
 			rows[i] = &apiv1.AttesterDuty{Slot: phase0.Slot(a.Slot), ValidatorIndex: phase0.ValidatorIndex(a.Val),
@@ -104,7 +195,7 @@ func runInput(t *testing.T, in Input) (Observed, []Duty, History) {
 			skip[i] = given[i] == nil // no duty for that slot: nothing to call Attest with
 		}
 		return given, skip
-	})
+	}, in.extra())
 	if mergeProblem != "" && obs.Problem == "" {
 		obs.Problem = mergeProblem
 	}
@@ -355,11 +446,12 @@ func seqTiming(r *Rand, i int) Timing {
 // remote signer, the beacon nodes) is overlapped by the call for the next slot, or by a late call for
 // an earlier one.  overlapTimings lays the calls idx (run indices, the first is the waiting call A)
 // out accordingly; base is A's start in units of K.  Modes:
-//   sign-window     A's signer is slow; every other call receives its accounts -- and so fills its
-//                   per-validator arrays and calls its own signer -- while A waits for its signatures
-//   submit-window   A's submission is slow; the others build their attestations meanwhile
-//   accounts-window A's accounts provider is slow; the others receive their attestation data meanwhile
-//   random          starts within a short span, any latencies
+//
+//	sign-window     A's signer is slow; every other call receives its accounts -- and so fills its
+//	                per-validator arrays and calls its own signer -- while A waits for its signatures
+//	submit-window   A's submission is slow; the others build their attestations meanwhile
+//	accounts-window A's accounts provider is slow; the others receive their attestation data meanwhile
+//	random          starts within a short span, any latencies
 var overlapModes = []string{"sign-window", "submit-window", "accounts-window", "random"}
 
 func pickOverlapMode(r *Rand) int {
@@ -760,6 +852,15 @@ func gen(r *Rand, traceLog bool) (History, []string) {
 	return h, tags
 }
 
+func containsS(xs []string, x string) bool {
+	for _, y := range xs {
+		if x == y {
+			return true
+		}
+	}
+	return false
+}
+
 func containsU(xs []uint64, x uint64) bool {
 	for _, y := range xs {
 		if x == y {
@@ -784,18 +885,26 @@ func TestC04(t *testing.T) {
 	}
 	rng := NewRand(Seed())
 	for i := 0; i < n; i++ {
+		r := rng.Fork()
 		if i%4 == 3 {
-			in, tg := genMerged(rng.Fork(), thorough && i%8 == 7)
+			in, tg := genMerged(r, thorough && i%8 == 7)
+			tg = append(tg, vary(r.Fork(), &in, false, !containsS(tg, "merged-overlap"))...)
 			items = append(items, item{in, tg})
 			continue
 		}
 		if i%8 == 5 {
-			h, tg := genOverlap(rng.Fork(), thorough && i%16 == 5)
-			items = append(items, item{Input{History: h}, tg})
+			h, tg := genOverlap(r, thorough && i%16 == 5)
+			in := Input{History: h}
+			tg = append(tg, vary(r.Fork(), &in, false, false)...)
+			items = append(items, item{in, tg})
 			continue
 		}
-		h, tg := gen(rng.Fork(), thorough && i%2 == 1)
-		items = append(items, item{Input{History: h}, tg})
+		h, tg := gen(r, thorough && i%2 == 1)
+		in := Input{History: h}
+		// every 8th case: a service with a process concurrency above 1 and a signer that is slower for
+		// some accounts than for others
+		tg = append(tg, vary(r.Fork(), &in, i%8 == 1, true)...)
+		items = append(items, item{in, tg})
 	}
 	for _, it := range items {
 		in := it.in
@@ -818,7 +927,7 @@ func TestC04(t *testing.T) {
 		}
 		in.Tags = it.tags
 		id := col.NextID()
-		col.Add(Case{Term: caseTerm(id, in, hp, obs, merged), Key: fmt.Sprintf("%v%v%v", h.Runs, in.Api, in.FromApi) + fmt.Sprint(h.SPE), Nontrivial: nt, Tags: it.tags,
+		col.Add(Case{Term: caseTerm(id, in, hp, obs, merged), Key: fmt.Sprintf("%v%v%v", in.Runs, in.Api, in.FromApi) + fmt.Sprint(h.SPE, in.Concurrency, in.SignLat), Nontrivial: nt, Tags: it.tags,
 			Sample: map[string]any{"input": in, "observed": map[string]any{"calls": obs, "merged": merged}}})
 	}
 	if err := col.Flush(); err != nil {
